@@ -40,23 +40,24 @@ void *htp_table_get_c(const htp_table_t *t, const char *k){ return NULL; } size_
 void *htp_table_get_index(const htp_table_t *t, size_t i, bstr **k){ return NULL; } void htp_table_clear(htp_table_t *t){ }
 void *htp_list_array_get(const htp_list_array_t *l, size_t idx){ return &TX[R]; }
 static int done[2];
-/* htp_connp_res_data's loop and DATA / DATA_BUFFER branch for the line-oriented states */
+/* one driver call: the states a fragment of this START can traverse, each at most once and in their only possible order */
+#define STEP(S) if(!stop && !done[R] && c->out_state==S){ htp_status_t rc=S(c); \
+        if(rc==HTP_OK){ c->out_state_previous=c->out_state; } \
+        else { assert(rc==HTP_DATA||rc==HTP_DATA_BUFFER); htp_connp_res_receiver_send_data(c,0); if(rc==HTP_DATA_BUFFER){ htp_status_t b=htp_connp_res_buffer(c); assert(b==HTP_OK); } stop=1; } }
 static void feed(htp_connp_t *c, unsigned char *data, size_t len){
     c->out_current_data=data; c->out_current_len=(int64_t)len; c->out_current_read_offset=0; c->out_current_consume_offset=0; c->out_current_receiver_offset=0;
-    for(int k=0;k<6;k++){ htp_status_t rc;
-        if(done[R]) break;
-        if(c->out_state==htp_connp_RES_HEADERS) rc=htp_connp_RES_HEADERS(c);
-        else if(c->out_state==htp_connp_RES_LINE) rc=htp_connp_RES_LINE(c);
-        else if(c->out_state==htp_connp_RES_FINALIZE) rc=htp_connp_RES_FINALIZE(c);
-        else if(c->out_state==htp_connp_RES_IDLE) rc=htp_connp_RES_IDLE(c);
-        else { done[R]=1; break; }      /* successor state (RES_BODY_DETERMINE ...): the fragment ends here */
-        if(rc==HTP_OK){ c->out_state_previous=c->out_state; continue; }
-        assert(rc==HTP_DATA||rc==HTP_DATA_BUFFER);
-        htp_connp_res_receiver_send_data(c,0);
-        if(rc==HTP_DATA_BUFFER){ htp_status_t b=htp_connp_res_buffer(c); assert(b==HTP_OK); }
-        return; }
-    /* what the successor state will see */
-    if(done[R]){ ev(EV_REST); evbytes(data+c->out_current_read_offset,len-(size_t)c->out_current_read_offset); }
+    int stop=0;
+    if(done[R]){ evbytes(data,len); return; }      /* the fragment's states are finished: everything else belongs to the successor state */
+#if START==3
+    STEP(htp_connp_RES_FINALIZE) STEP(htp_connp_RES_IDLE)
+#endif
+#if START>=2
+    STEP(htp_connp_RES_LINE)
+#endif
+#if START<=2 && !defined(NOHDR)
+    STEP(htp_connp_RES_HEADERS)
+#endif
+    if(!stop && !done[R]){ done[R]=1; ev(EV_REST); evbytes(data+c->out_current_read_offset,len-(size_t)c->out_current_read_offset); }
 }
 static void run(int r, unsigned char *buf, size_t len, size_t cut){
     R=r; htp_connp_t *c=&C[r]; htp_tx_t *tx=&TX[r];
@@ -85,6 +86,12 @@ void harness(void){
     size_t cut=CUT;
     /* known findings, by (shape, cut, byte) predicate */
     KF_GATE(KF_MODE_F1_lfcr_at_cut, cut>=2 && buf[cut-1]=='\r' && buf[cut]=='\n' && cut+1<N && buf[cut+1]=='\r' && !(cut+2<N && buf[cut+2]=='\n'));
+    /* response folding is decided on the peeked next byte even when the chunk ends there (the request side defers): a folded
+     * response header whose continuation line starts a new chunk is handed on as two headers */
+    KF_GATE(KF_MODE_C03_res_fold_at_cut, START<=2 && cut>=1 && buf[cut-1]=='\n' && (buf[cut]==' '||buf[cut]=='\t'));
+    /* RES_FINALIZE un-reads the probed status line of the next response but keeps the part already moved to out_buf: when the
+     * line is cut, RES_LINE sees the second part twice */
+    { size_t eol=0; while(eol<N && buf[eol]!='\n' && buf[eol]!='\r') eol++; KF_GATE(KF_MODE_C03_res_finalize_unread, START==3 && cut>=1 && cut<eol); }
     run(0,buf,N,0); run(1,buf,N,cut);
     assert(LOGN[0]==LOGN[1]);
     for(size_t i=0;i<LOGSZ;i++) if(i<LOGN[0]) assert(LOG[0][i]==LOG[1][i]);
